@@ -342,6 +342,18 @@ pub fn gen_program(r: &mut Rng, budget: usize, depth: usize) -> (String, std::co
     let mut g = LuaGen::new(r);
     g.budget = budget;
     g.max_depth = depth;
+    // one program in eight draws its names from a pool of distinct spellings that common cheap comparisons
+    // confuse: equal length and equal polynomial / additive / xor hash, case variants, one a prefix of the other
+    if g.r.chance(1, 8) {
+        g.names = (*g.r.pick(&[
+            &["dt", "f2", "as", "c1", "e1", "gs"][..],
+            &["aa", "bB", "ab", "ba", "bC", "cb"][..],
+            &["a1", "bP", "ar", "bA", "af", "ac"][..],
+            &["v", "V", "va", "val", "v_", "_v"][..],
+        ]))
+        .to_vec();
+        g.bump("confusable_name_pool");
+    }
     let p = g.program();
     (p, g.stats)
 }
